@@ -282,7 +282,7 @@ ITER_DRIVERS = {
 }
 
 
-@rule("R03.4", 6, "document loops forward every document exactly once per iteration", ["C03"])
+@rule("R03.4", 4, "document loops forward every document exactly once per iteration", ["C03"])
 def r03_4(ctx):
     lib = ctx.lib
     eps = common.input_entry_points(ctx.facts)
@@ -343,7 +343,7 @@ def r03_4(ctx):
                         ctx.ob(f"{key}:failure-stops-loop", used, site(cb, bb), "a failed document ends the translation" if used else "a failed document does not end the translation")
             if not heads and tcalls and b is ep and fmt == "toml":
                 ctx.ob(f"{fmt}:single-document", len(tcalls) == 1 and not b.on_cycle(tcalls[0][0]), site(b), "TOML input forwards exactly one document", trivial=True)
-    ctx.ob("document-loops", n >= 6, "lib", f"{n} document loop(s) analysed")
+    ctx.ob("document-loops", n >= 3, "lib", f"{n} document loop(s) analysed")
 
 
 # --------------------------------------------------------------------------- C05
@@ -408,6 +408,9 @@ def _bounded_by_constants(lib, cm, body, op, depth=0, seen=None):
         if rv["k"] == "binop" and rv["op"] in ("Sub", "SubWithOverflow", "SubUnchecked", "Div", "Shr") and is_place(rv["a"]) and rv["a"]["p"].get("ty", "") in ("usize", "u64", "u32", "u16", "u8", "u128"):
             return _bounded_by_constants(lib, cm, body, rv["a"], depth + 1, seen)
     return False, []
+
+
+SLURP_CAP = 1 << 24
 
 
 @rule("R05.1", 3, "who-may-slurp: read_to_end & co. occur only in the TOML path or on a Take bounded by constants", ["C05"])
@@ -477,6 +480,12 @@ def r05_1(ctx):
                 for bb2, t2 in b.calls():
                     if (fn_of(t2) or {}).get("def") == "std::io::Read::take":
                         lim_ok, consts = _bounded_by_constants(lib, cm, b, t2["args"][1])
+            # "bounded" means bounded by something a machine can hold: the largest constant a limit derives from is
+            # capped (16 MiB; today's largest is the 2 MiB TOML detection cut-off). `take(u64::MAX)` is not a bound.
+            big = [c for c in consts if isinstance(c, int) and c > SLURP_CAP]
+            if lim_ok and big:
+                ctx.ob(key + ":bounded-take", False, site(b, bb), f"the Take limit derives from the constant {big[0]}: not a bound on look-ahead (cap {SLURP_CAP} bytes)")
+                continue
             ctx.ob(key + ":bounded-take", lim_ok, site(b, bb), f"reads at most a constant number of bytes (limits from constants {sorted(set(c for c in consts if c is not None))})" if lim_ok else "the Take limit is not bounded by constants: look-ahead can grow with the stream")
         else:
             only_toml = b.id not in reach
@@ -518,7 +527,7 @@ def r05_2(ctx):
     ctx.ob("boxing-sites", n >= 1, "lib", f"{n} unsizing coercion(s) to Box<dyn Read> in the Handle->Input conversion")
 
 
-@rule("R05.3", 6, "bounded look-ahead: prefix sizes are constants, each streaming trial examines one document (no loop), the TOML trial gives up at its cap", ["C05"])
+@rule("R05.3", 4, "bounded look-ahead: prefix sizes are constants, each streaming trial examines one document (no loop), the TOML trial gives up at its cap", ["C05"])
 def r05_3(ctx):
     lib = ctx.lib
     trials = common.trial_functions(ctx.facts)
@@ -581,7 +590,7 @@ def r05_3(ctx):
                 if (f.get("crate") in ("serde_json", "rmp_serde", "serde_yaml") or common.is_chunker_next(ctx.facts, f)) and sup.on_cycle(nn):
                     cyc.append(f["def"])
             ctx.ob(f"{fmt}:one-document-examined", not cyc, site(b), "parser calls are not in a loop" if not cyc else f"trial loops over the stream: {cyc}")
-    ctx.ob("prefix-calls", n >= 3, "lib", f"{n} prefix accessor call(s)")
+    ctx.ob("prefix-calls", n >= 2, "lib", f"{n} prefix accessor call(s)")
 
 
 @rule("R05.4", 3, "streaming trials run before the buffering TOML trial", ["C05"])
